@@ -10,7 +10,7 @@
    table's object name and service file name) this is the chain from a reference to the real names.  The reading of a Volume= /
    Mount= / Network= value into a reference is decided by the direct oracle plus correspondence of the Process model. *)
 From Coq Require Import Sorting.Sorted Sorting.Permutation.
-From QV Require Import Model.Base Generated.Tables Model.Unit Model.Path Model.Names Model.Convert Model.Quote Model.Process Spec.Names Proofs.C07 Proofs.C08 Proofs.C09run Proofs.C08run Proofs.Prio.
+From QV Require Import Model.Base Generated.Tables Model.Unit Model.Path Model.Names Model.Convert Model.Quote Model.Process Spec.Names Proofs.C07 Proofs.C08 Proofs.C09run Proofs.C08run Proofs.Prio Model.Lex Model.Parser Model.ProcessD Proofs.C11 Proofs.C13names.
 
 Theorem C08_storage_source : forall unit_path svc src tbl check_image,
   starts_with [cDOT] src = false -> starts_with [cSLASH] src = false ->
@@ -94,3 +94,34 @@ Theorem C08_referenced_types_first :
   (forall a b, In a [TImage; TNetwork; TVolume] -> In b [TBuild; TContainer; TKube; TPod] -> (type_priority a < type_priority b)%N) /\
   (type_priority TBuild < type_priority TContainer)%N.
 Proof. exact referenced_types_first. Qed.
+
+(* ---- names and drop-ins (Model/ProcessD.v: the run over unit files WITH their drop-ins) ---- *)
+(* without drop-ins it is the run of Model/Process.v: every theorem above about process_files applies to it *)
+Theorem C08_run_without_dropins_is_the_plain_run : forall podman ep kf mn b files,
+  process_trees podman ep kf mn b (map (fun f => (fst f, snd f, [])) files) = process_files podman ep kf mn files.
+Proof. exact process_trees_without_dropins. Qed.
+
+(* repaired: the unit that is converted is the main file merged with its drop-ins, it is validated, and the name table holds the service
+   name and object name of THAT unit -- an explicit ServiceName=/ContainerName=/ImageTag= in a drop-in is what referring units see *)
+Theorem C08_names_follow_the_merged_unit : forall path main ds m i,
+  load_tree true path main ds = LOk m i ->
+  exists u, parse_unit main = Some u /\ m = fst (merge_dropins u ds) /\ unit_info m path = COk i /\ Validated m.
+Proof. exact names_follow_the_merged_unit. Qed.
+
+(* the pinned order (names from the main file alone) against the repaired one, kernel-checked: b.container gets ContainerName=foo and
+   ServiceName=bsvc from a drop-in; a.container has Network=b.container *)
+Theorem C08_dropin_names_example :
+  let run b := snd (process_trees (s2l "/usr/bin/podman") (fun _ => false) true false b ex_files) in
+  svc_path_of (assoc_str (s2l "/d/b.container") (run true)) = s2l "bsvc.service" /\
+  requires_of (assoc_str (s2l "/d/a.container") (run true)) = [s2l "bsvc.service"] /\
+  exec_start_of (assoc_str (s2l "/d/a.container") (run true)) =
+    [s2l "/usr/bin/podman run --name systemd-%N --cidfile=%t/%N.cid --replace --rm --cgroups split --network container:foo --sdnotify=conmon -d img"] /\
+  exec_start_of (assoc_str (s2l "/d/b.container") (run true)) =
+    [s2l "/usr/bin/podman run --name foo --cidfile=%t/%N.cid --replace --rm --cgroups split --sdnotify=conmon -d img"] /\
+  svc_path_of (assoc_str (s2l "/d/b.container") (run false)) = s2l "b.service" /\
+  requires_of (assoc_str (s2l "/d/a.container") (run false)) = [s2l "b.service"] /\
+  exec_start_of (assoc_str (s2l "/d/a.container") (run false)) =
+    [s2l "/usr/bin/podman run --name systemd-%N --cidfile=%t/%N.cid --replace --rm --cgroups split --network container:systemd-b --sdnotify=conmon -d img"] /\
+  exec_start_of (assoc_str (s2l "/d/b.container") (run false)) =
+    [s2l "/usr/bin/podman run --name foo --cidfile=%t/%N.cid --replace --rm --cgroups split --sdnotify=conmon -d img"].
+Proof. exact dropin_names_example. Qed.
